@@ -74,6 +74,11 @@ class IkeSaController:
             self.ike_sas.append(ike_sa.new_ike_sa)
             logging.info(f'IKE SA={ike_sa.new_ike_sa} created by rekey. Count={len(self.ike_sas)}')
 
+        # a responder IKE_SA whose IKE_SA_INIT request was not accepted (unparsable, wrong flag or Message ID) is forgotten
+        if ike_sa.state == IkeSa.State.INITIAL and not ike_sa.is_initiator:
+            self.ike_sas.remove(ike_sa)
+            logging.info(f'Dropped half-open IKE_SA={ike_sa}. Count={len(self.ike_sas)}')
+
         # if the IKE_SA needs to be closed
         if ike_sa.state == IkeSa.State.DELETED:
             ike_sa.delete_child_sas()
@@ -201,6 +206,9 @@ class IkeSaController:
                 logging.error(f'Problem sending message: {ex}')
             except KeyError as ex:
                 logging.error(f'Could not find socket with the appropriate source address: {str(ex)}')
+            except Exception as ex:
+                # whatever a datagram, a kernel event or a failed transmission causes, the daemon keeps serving
+                logging.error(f'Unexpected error while handling an event: {ex!r}. Continuing')
 
     def close(self):
         xfrm.Xfrm.flush_policies()
